@@ -180,6 +180,8 @@ def match_finding(findings, prop, sig):
 
 
 def write_evidence(prop, tier, level, coverage, wall, violations=0, assumptions=None):
+    if os.environ.get("VERIF_REPLAY"):
+        return      # a replay re-runs one recorded case: it must not replace the evidence of the last full run
     os.makedirs(EVIDENCE, exist_ok=True)
     doc = {
         "property_id": prop,
